@@ -43,6 +43,12 @@ ASSUMPTIONS = [
     "are fetchable poms and fewer than MaxImports); the composition over whole lineages (interpolation sits between merge and "
     "dedupe in the Go code, Maven selects on the written text) is decided by the direct oracle Go vs specification, not a theorem",
     "OS family is a single value of the settings (Maven derives several families from os.name)",
+    "the jdk condition is judged independently (Spec: jdk_expect, a transcription of JdkVersionProfileActivator) for plain and "
+    "negated values and for ranges over JDK versions of at most three numbers; for longer JDK versions (1.8.0_292) with a range "
+    "the specification falls back on the answer of the Go code: there the jdk clause itself is judged by nobody",
+    "the drivers: the pipeline of examples/go/maven_parse_resolve is run through the harness's copy of its mergeParents (tied by "
+    "the regenerated call-order table only); the driver of util/resolve/maven.go is run for real through APIClient.Requirements "
+    "with a fake Insights client (kind pomapi, default profiles only)",
     "C15_pipeline_total assumes that the JDK clause of Profile.activated (Maven version-constraint code, a parameter of the "
     "model) returns a value or an error; C15_pipeline_total_no_jdk needs no assumption when no profile states a jdk condition",
     "where Maven's outcome rests on null versus empty (a classifier or scope written but interpolating to the empty string "
@@ -79,6 +85,7 @@ TRIGGER_FINDING = {
     "bom_parent_builtin": "F-C15-4",
     "excl_placeholder": "F-C15-5",
     "jdk_plain_value": "F-C15-6",
+    "jdk_negated": "F-C15-9",
 }
 
 
@@ -157,6 +164,40 @@ def fill_tables(ctx, cases):
     return tab
 
 
+ALL_JDK_SPECS = G.JDK_RANGES + G.JDK_SIMPLE + G.JDK_SIMPLE_RISKY + G.JDK_NEGATED + G.JDK_BAD
+ALL_JDKS = sorted(set(e[0] for e in G.ENVS + G.LINUX_ENVS)) + [b"9", b"1.8.0", b"11", b"17.0.2.1"]
+
+
+def check_jdk_table(ctx):
+    """The jdk condition of Profile.activated, judged independently: every answer of the Go code (jdkprobe) for
+    every stated value x JDK version the generators use, against the specification's own evaluation of Maven's
+    JdkVersionProfileActivator (kind jdkspec: prefix, negated prefix, ranges by numeric-tuple comparison; 3 = no
+    claim, e.g. JDK versions of more than three numbers).  A difference is a known finding only in the class the
+    finding describes AND only when Go gives exactly the answer recorded for that class."""
+    pairs = [[s_, j] for s_ in ALL_JDK_SPECS for j in ALL_JDKS]
+    go = parse_sx(impl_safe(ctx, "jdkprobe", [sx(pairs)])[0])
+    sp = parse_sx(ctx.model("jdkspec", [sx(pairs)])[0])
+    for g, e in zip(go, sp):
+        spec_, jdk, got, want = g[0], g[1], g[2], e[2]
+        if want == 3:
+            ctx.count("jdk_clause:no_claim")
+            continue
+        ctx.count("jdk_clause:judged")
+        if got == want:
+            continue
+        plain = spec_[:1] not in (b"[", b"(", b"!")
+        if plain and got == G.go_plain_rule(spec_, jdk):
+            ctx.known_hits["F-C15-6"] = ctx.known_hits.get("F-C15-6", 0) + 1
+        elif spec_[:1] == b"!" and got == 2:
+            ctx.known_hits["F-C15-9"] = ctx.known_hits.get("F-C15-9", 0) + 1
+        else:
+            ctx.violation("the jdk condition of a profile is decided differently from Maven's JdkVersionProfileActivator "
+                          "(1 active, 0 not, 2 error)", {"kind": "jdkprobe", "case": sx([[spec_, jdk]]),
+                                                          "profile": "<activation><jdk>%s</jdk></activation> under JDK %s"
+                                                          % (spec_.decode(), jdk.decode())},
+                          observed=got, required=want)
+
+
 def show(x):
     return lib.jsonable(x)
 
@@ -197,7 +238,9 @@ def oracle(ctx, cases, tab, impl, model, spec, label):
             ctx.nontriv(a)
         if ps == pb:
             continue
-        if tr and b == m:      # b: from the XML texts, m: the model (which the value-built run is tied to)
+        # A difference is put down to the known findings only when the model (a copy of today's Go behaviour)
+        # shows it too AND every entry that differs is one the known constructions of this lineage can affect.
+        if tr and b == m and G.excused(tr, ps, pb):
             for t in sorted(tr):
                 ctx.known_hits[TRIGGER_FINDING[t]] = ctx.known_hits.get(TRIGGER_FINDING[t], 0) + 1
             continue
@@ -357,8 +400,18 @@ def interp_stream(ctx):
     targs = [sx(c) for c in tcases]
     ti, tm = correspond_safe(ctx, "interp", targs)
     flags = collections.Counter()
-    for c, a, line in zip(tcases, targs, ti):
+    for c, a, line, model_line in zip(tcases, targs, ti, tm):
         r = parse_sx(line)
+        if r[0] == b"hang":
+            # the watchdog is wall-clock time: under load a slow answer looks like a hang.  Ask again, alone, with
+            # ten times the limit, before saying so.
+            line = ctx.impl("interp", [a], shards=1, env=dict(os.environ, VERIF_INTERP_TIMEOUT="200"))[0]
+            r = parse_sx(line)
+            if r[0] != b"hang":
+                ctx.count("interp:slow_answer_confirmed_alone")
+                ctx.divergences[:] = [d for d in ctx.divergences if not (d["case_kind"] == "interp" and d["case"] == a)]
+                if line != model_line:
+                    ctx.divergence("interp", a, line, model_line)
         if r[0] in (b"hang", b"panic", b"err"):
             ctx.violation("interpolation does not terminate normally on a property table (%s)" % r[0].decode(),
                           {"kind": "interp", "case": a}, observed=line, required="(result ok)")
@@ -390,6 +443,7 @@ def run_all(ctx):
     # the termination clause first: a property table on which the implementation dies must be reported as such
     interp_stream(ctx)
     replay_known(ctx)
+    check_jdk_table(ctx)
 
     # ---- replay of earlier failing inputs first
     extra = []
@@ -465,13 +519,43 @@ def run_all(ctx):
     gen2 = G.LineageGen(rng, envs=[[b"", b"", b"", b"", b""], [b"", b"linux", b"", b"", b""]])
     cases2 = [gen2.lineage() for _ in range(n2)]
     fill_tables(ctx, cases2)
-    ctx.correspond("pom", [sx(c) for c in cases2], label="pom(no environment)")
+    pom2, _ = ctx.correspond("pom", [sx(c) for c in cases2], label="pom(no environment)")
+
+    # ---- the REAL driver of util/resolve/maven.go (APIClient.Requirements -> mavenRequirements ->
+    # fetchMavenParents), hook-free: the lineage is served as Requirements_Maven by a fake Insights client.
+    # (a) correspondence with the model of that driver (Project.v effective_resolve);
+    # (b) direct: wherever the documented pipeline (kind pom, no environment) gives dependencies, the driver must
+    #     give the same ones (as requirements: name, version and the dep.Type attributes MavenDepType derives).
+    a2 = [sx(c) for c in cases2]
+    api_impl, _ = correspond_safe(ctx, "pomapi", a2)
+    napi = 0
+    for c, a, x, y in zip(cases2, a2, api_impl, pom2):
+        ry = parse_sx(y)
+        if ry[0] != b"ok" or any(c[0]):
+            continue          # that driver knows no JDK and no OS: comparable only with a blank environment
+        want = []
+        for d in ry[1]:
+            exs = [e for e in d[7] if b"|" not in e[0] and b"|" not in e[1]]
+            test = d[5] == b"test"
+            want.append([d[0] + b":" + d[1], d[2], 1 if d[6] == b"true" else 0, 1 if test else 0,
+                         b"" if (test or d[5] in (b"", b"compile")) else d[5], b"" if d[3] in (b"", b"jar") else d[3], d[4],
+                         1 if d[7] else 0, b"|".join(e[0] + b":" + e[1] for e in exs)])
+        rx = parse_sx(x)
+        if rx[0] != b"ok" or rx[1] != want:
+            napi += 1
+            if napi <= 10:
+                ctx.violation("APIClient.Requirements (util/resolve/maven.go: mavenRequirements, fetchMavenParents) does not give "
+                              "the dependencies of the documented pipeline for the same lineage",
+                              {"kind": "pomapi", "case": a}, observed=x, required=sx([b"ok", want]))
+        else:
+            ctx.count("pomapi:agrees_with_documented_pipeline")
 
     # ---- lineages with missing POMs (a missing parent is an error, a missing import is skipped). Correspondence only.
     gen3 = G.LineageGen(rng, knobs=G.Knobs(missing_bom=1.0))
     cases3 = [gen3.lineage() for _ in range(ctx.scale(200, 4000))]
     fill_tables(ctx, cases3)
     ctx.correspond("pom", [sx(c) for c in cases3], label="pom(missing POM)")
+    correspond_safe(ctx, "pomapi", [sx(c) for c in cases3], label="pomapi(missing POM)")
 
     # ---- optional: the specification against the installed Maven model builder
     if reference_available():
